@@ -131,7 +131,7 @@ def p_c14(facts, rep, tier):
         "(io::Error, anyhow::Error, BucketExhaustion) is dropped or thrown away by a discarding consumer; R2: every CompleteIo has "
         "its `.result` checked (or is handed on whole) on every success path; R3: every spawned task's channel has a join_task on the "
         "paired receiver; R4: in the five mutating entry points the failure edge of every fallible repo call at or after an effect "
-        "passes a poisoning site (or the callee is proved self-poisoning), and Store::commit refuses when poisoned before starting a sync; R5: no wait/join is reachable without its request/spawn; R6: the I/O back-end builds an Ok completion only on the arm where the syscall result was classified as success, and the classifier says success only under `res == <expected length>` (enumeration); composed with the back-end, a negative io_uring completion is classified Err (or Retry only on EINTR), never Ok and never Retry unconditionally; R7: every loop on the bucket-allocation path (allocate_bucket and what it calls) is iterator- or counter-driven with an exit on the counter, so running out of buckets ends in the error return. "
+        "passes a poisoning site (or the callee is proved self-poisoning), and Store::commit refuses when poisoned before starting a sync; R5: no wait/join is reachable without its request/spawn; R6: the I/O back-end builds an Ok completion only on the arm where the syscall result was classified as success, and the classifier says success only under `res == <expected length>` (enumeration); composed with the back-end, a negative io_uring completion is classified Err (or Retry only on EINTR), never Ok and never Retry unconditionally; R7: every loop on the bucket-allocation path (allocate_bucket and what it calls) is iterator- or counter-driven with an exit on the counter, so running out of buckets ends in the error return; R8: the byte count of every partial write / read is looked at; R9: a libc call that returns the error number (posix_*, pthread_*) is tested against 0 / from_raw_os_error, never judged by the -1 convention of cvt_r. "
         "On-disk atomicity after a failure and liveness are not decided."
     )
     st = strands.Strands(facts)
